@@ -8,10 +8,9 @@ use std::io::Write;
 use std::path::{Path, PathBuf};
 use std::time::Instant;
 
-/// Root of the verification tree. Always `/verif` for the registered checks; development tools (`tools/try_seed.sh`)
-/// run a snapshot of the committed tree from elsewhere through `VERIF_HOME`, so that /verif can be edited meanwhile.
+/// Root of the verification tree.
 pub fn verif_root() -> PathBuf {
-    std::env::var_os("VERIF_HOME").map(PathBuf::from).unwrap_or_else(|| PathBuf::from("/verif"))
+    PathBuf::from("/verif")
 }
 
 #[derive(Clone, Copy, Debug, PartialEq, Eq)]
